@@ -80,6 +80,23 @@ def generate(rng, tier, stats):
                     wprop.bump(stats, "extra container statuses", "trigger in the ephemeral one")
                 if slow is not None:
                     o["status"]["startTime"] = K.ts(-(slow + rng.choice([-1, 0, 1, 100])))
+        mrd = canary["autoFail"].get("maxRestartsDuration")
+        if mrd is not None and rng.random() < 0.7:
+            # a recorded restart history whose FIRST restart is older than maxRestartsDuration while the span between the first
+            # and the latest restart is just below, at, or just above it
+            d = int(mrd.rstrip("s")) if mrd.endswith("s") and mrd[:-1].isdigit() else None
+            if d is not None:
+                first = -(d + rng.choice([1, 40, 200]))
+                span = rng.choice([0, 5, d - 1, d, d + 1])
+                last = min(first + span, 0)
+                for o in c["objects"]:
+                    if o["kind"] == "ExtendedDaemonSetReplicaSet" and o["metadata"]["name"] == "foo-b":
+                        conds = o.setdefault("status", {}).setdefault("conditions", [])
+                        if conds is None:
+                            o["status"]["conditions"] = conds = []
+                        conds[:] = [x for x in conds if x["type"] != "PodRestarting"]
+                        conds.append(K.cond("PodRestarting", "True", trans=first, update=last, reason=""))
+                wprop.bump(stats, "restart span vs maxRestartsDuration", "%+d" % (last - first - d))
         wprop.bump(stats, "thresholds ap/af", "%s/%s" % (apm, max(afm, apm)))
         wprop.bump(stats, "maxSlowStartDuration", slow)
         out.append(c)
